@@ -131,6 +131,15 @@ class WebSocketTimeoutException(WebSocketException):
     pass
 
 
+class WebSocketBadStatusException(WebSocketException):
+    """websocket-client: the handshake was answered with an HTTP error status."""
+
+    def __init__(self, message, status_code=403, status_message=None, resp_headers=None):
+        super().__init__(message)
+        self.status_code = status_code
+        self.resp_headers = resp_headers
+
+
 class WebSocketConnectionClosedException(WebSocketException):
     pass
 
@@ -188,6 +197,7 @@ class TClientHarness:
         wsm = types.ModuleType('websocket')
         wsm.WebSocketException = WebSocketException
         wsm.WebSocketTimeoutException = WebSocketTimeoutException
+        wsm.WebSocketBadStatusException = WebSocketBadStatusException
         wsm.WebSocketConnectionClosedException = WebSocketConnectionClosedException
         wsm.create_connection = self._ws_connect
         ec.requests = rq
@@ -284,6 +294,8 @@ class TClientHarness:
             self.sched.block(lambda: False, self.latency, 'latency')
         if f and f['kind'] == 'refuse':
             raise WebSocketException('connection refused (scripted)')
+        if f and f['kind'] == 'bad-status':
+            raise WebSocketBadStatusException('Handshake status 403 Forbidden (scripted)', 403)
         conn = self.world.ws_open(query, headers=list((opts.get('header') or {}).items()) +
                                   [('Host', netloc)], path=path,
                                   scheme='https' if scheme == 'wss' else 'http')
@@ -650,6 +662,15 @@ class FakeAioSession:
             await asyncio.sleep(h.latency)
         if f and f['kind'] == 'refuse':
             raise aiohttp.ClientConnectionError('connection refused (scripted)')
+        if f and f['kind'] == 'bad-status':
+            # aiohttp: the server answered the handshake with an HTTP error status
+            import multidict
+            import yarl
+            ri = aiohttp.RequestInfo(yarl.URL(url), 'GET',
+                                     multidict.CIMultiDictProxy(multidict.CIMultiDict()),
+                                     yarl.URL(url))
+            raise aiohttp.WSServerHandshakeError(ri, (), status=403,
+                                                 message='Invalid response status (scripted)')
         conn = h.world.ws_open(query, headers=list((headers or {}).items()) + [('Host', netloc)],
                                path=path, scheme='ws' if h.comp is None else 'http')
         rec['conn'] = conn
